@@ -208,8 +208,8 @@ STRENGTHENED = {
                         "`latestep` for protocol scans (the row fails in a later protocol step)",
     "C09-mut_C19-r4m2": "a cache defect (scan.protocol_time_course dropping cache=): results are right, only caching is lost; caught by "
                         "C19, the owning check, see C19-mut_C19-r4m2",
-    "C17-mut_C17-r5m2": "NOT COVERED: sbml.read memoising the parsed document by path (functools.cache) - needs a session that rewrites "
-                        "a file between two reads of the same path; stated as a gap in claims/C17.json",
+    "C17-mut_C17-r5m2": "missed at first (sbml.read memoising the parsed document by path); SbmlSession Rewrite(d): the file of a "
+                        "document replaced by its twin between two reads, path-memo instance refuted",
 }
 rows = []
 for d in sorted(p for p in root.iterdir() if p.is_dir()):
